@@ -255,7 +255,41 @@ func NormalizeFrequencies(freqs []int, alphabet []int, totalFreq, scale int) (in
 		}
 	}
 
-	freqs[idxMax] = max(freqs[idxMax]-delta, 1)
+	if delta > 0 {
+		if inc > 0 {
+			// Remaining deficit: give it to the most frequent symbol
+			freqs[idxMax] += delta
+		} else if freqs[idxMax] > delta {
+			// Remaining excess: take it from the most frequent symbol
+			freqs[idxMax] -= delta
+		} else {
+			// The most frequent symbol is too small to absorb the remaining
+			// excess: take it from every symbol with a frequency above 1
+			// (there is always one since scale >= 256 >= number of symbols)
+			for delta > 0 {
+				adjustments := 0
+
+				for idx := 0; idx < 256; idx++ {
+					if freqs[idx] <= 1 {
+						continue
+					}
+
+					freqs[idx]--
+					adjustments++
+					delta--
+
+					if delta == 0 {
+						break
+					}
+				}
+
+				if adjustments == 0 {
+					break
+				}
+			}
+		}
+	}
+
 	return alphabetSize, nil
 }
 
